@@ -464,6 +464,8 @@ where
 
         total_num_docs += docs.len();
 
+        #[cfg(datacake_verif)]
+        verif::failpoint("repair.modified").await;
         let msg = MultiSet {
             source: READ_REPAIR_SOURCE_ID,
             docs: DocVec::from_vec(docs),
@@ -492,6 +494,8 @@ async fn handle_removals<S>(
 where
     S: Storage,
 {
+    #[cfg(datacake_verif)]
+    verif::failpoint("repair.removals").await;
     if removed.is_empty() {
         return Ok(());
     }
@@ -514,4 +518,51 @@ where
     };
     keyspace.send(msg).await?;
     Ok(())
+}
+
+#[cfg(datacake_verif)]
+/// Verification-only entry points (cfg(datacake_verif)).
+pub mod verif {
+    use super::*;
+
+    /// Runs one full pull-repair of `group` from one peer, with a fresh
+    /// tracker so every keyspace of the peer is exchanged. Returns what the
+    /// tracker recorded, i.e. the keyspaces whose exchange completed.
+    pub async fn repair_from<S: Storage>(
+        group: KeyspaceGroup<S>,
+        network: RpcNetwork,
+        peer_id: NodeId,
+        peer_addr: SocketAddr,
+    ) -> BTreeMap<String, HLCTimestamp> {
+        let ctx = ReplicationCycleContext {
+            repair_interval: Duration::from_secs(3600),
+            group,
+            network,
+        };
+        let mut tracker = KeyspaceTracker::default();
+        let members = BTreeMap::from([(peer_id, peer_addr)]);
+        repair_members(&ctx, &members, &mut tracker).await;
+        tracker
+            .inner
+            .remove(&peer_id)
+            .map(|t| t.as_serializable())
+            .unwrap_or_default()
+    }
+
+    thread_local! {
+        static FAILPOINT: std::cell::RefCell<Option<Box<dyn Fn(&'static str) -> Duration>>> = std::cell::RefCell::new(None);
+    }
+
+    pub fn set_failpoint(f: Option<Box<dyn Fn(&'static str) -> Duration>>) {
+        FAILPOINT.with(|c| *c.borrow_mut() = f);
+    }
+
+    pub(crate) async fn failpoint(name: &'static str) {
+        let d = FAILPOINT.with(|c| c.borrow().as_ref().map(|f| f(name)));
+        if let Some(d) = d {
+            if !d.is_zero() {
+                tokio::time::sleep(d).await;
+            }
+        }
+    }
 }
